@@ -28,13 +28,14 @@ ASSUMPTIONS = ["element names are unique (members given by reference column 'nam
                "element drops remove the elements from every group (the model follows the element tables)"]
 REACH_PROBES = ["group_with_reference_column", "attach_with_mismatching_reference_column", "group_emptied",
                 "element_drop_with_members", "reindex_with_members", "res_sum_checked", "setter_checked",
-                "groups_created_from_shared_argument_lists", "attach_to_several_groups"]
+                "groups_created_from_shared_argument_lists", "attach_to_several_groups",
+                "membership_queries_checked"]
 
 TEMPLATES = [("feeder", 4), ("case9", 3), ("feeder_t3w", 2), ("four_bus", 1)]
 MEMBER_ET = ["load", "sgen", "line", "bus", "gen", "trafo", "switch"]
 OPS_W = [("create_group", 4), ("attach", 6), ("attach_many", 2), ("detach", 5), ("detach_all", 2), ("drop_group", 1),
          ("drop_group_and_elements", 1), ("set_refcol", 3), ("drop_el", 4), ("reindex", 4), ("reindex_group", 1),
-         ("in_service", 2), ("set_value", 2), ("res_sum", 2), ("create", 2)]
+         ("in_service", 2), ("set_value", 2), ("res_sum", 2), ("create", 2), ("query", 4)]
 
 
 def warm():
@@ -62,6 +63,11 @@ def generate(rng, idx, tier):
                 op["twice"] = rng.random() < 0.2     # a second group from the very same argument lists
             if f == "attach_many":
                 op["g2"] = rng.randrange(100)
+        elif f == "query":
+            op["et"] = rng.choice(MEMBER_ET)
+            op["n"] = rng.choice([1, 1, 2, 3])
+            op["single"] = rng.random() < 0.4          # one element index instead of a list
+            op["narrow"] = rng.random() < 0.4          # isin_group restricted to some groups
         elif f == "set_refcol":
             op["refcol"] = rng.choice([None, "name", "name"])
             op["et"] = rng.choice([None, None] + MEMBER_ET[:3])
@@ -424,6 +430,57 @@ def apply_op(net, model, op, ctx, fam, bad):
         fam[0] = f"set_value_to_group:{col}"
         _check_setter(net, snap, model.g[gi], col, val, bad, only_if_col=True)
         ctx.probe("setter_checked")
+        return "ok"
+    if k == "query":
+        # the membership reporting functions other than group_element_index
+        et = op["et"]
+        sel = _pick_members(net, et, op["a"], op["n"])
+        if not sel or not model.g:
+            return "noop"
+        fam[0] = "membership queries"
+        single = op["single"]
+        arg = sel[0] if single else sel
+        if single:
+            sel = sel[:1]
+        groups = sorted(model.g)
+        narrow = None
+        if op["narrow"]:
+            narrow = sorted({ops.pick(groups, op["b"]), ops.pick(groups, op["b"] + 1)})
+        # isin_group
+        try:
+            got = G.isin_group(net, et, arg, index=narrow)
+            want = [any(x in model.members(g, et) for g in (narrow or groups)) for x in sel]
+            got_l = [bool(got)] if single else [bool(v) for v in got]
+            if got_l != want:
+                bad("isin_group differs", f"isin_group({et}, {arg}, index={narrow}) = {got_l}, model {want}")
+        except Exception as e:
+            bad("isin_group raised", f"isin_group({et}, {arg}, index={narrow}) raised {type(e).__name__}: {e!s:.80}")
+        # element_associated_groups
+        try:
+            got = G.element_associated_groups(net, et, arg)
+            want = {x: sorted(g for g in groups if x in model.members(g, et)) for x in sel}
+            if single:
+                if sorted(got) != want[sel[0]]:
+                    bad("element_associated_groups differs",
+                        f"element_associated_groups({et}, {arg}) = {got}, model {want[sel[0]]}")
+            else:
+                got_d = {kk: sorted(v) for kk, v in dict(got).items()}
+                if got_d != want:
+                    bad("element_associated_groups differs",
+                        f"element_associated_groups({et}, {arg}) = {got_d}, model {want}")
+        except Exception as e:
+            bad("element_associated_groups raised",
+                f"element_associated_groups({et}, {arg}) raised {type(e).__name__}: {e!s:.80}")
+        # count_group_elements
+        g0 = ops.pick(groups, op["g"])
+        try:
+            got = G.count_group_elements(net, g0).to_dict()
+            want = {t: len(m) for t, m in model.g[g0].items() if m}
+            if {t: int(v) for t, v in got.items()} != want:
+                bad("count_group_elements differs", f"count_group_elements({g0}) = {got}, model {want}")
+        except Exception as e:
+            bad("count_group_elements raised", f"count_group_elements({g0}) raised {type(e).__name__}: {e!s:.80}")
+        ctx.probe("membership_queries_checked")
         return "ok"
     if k == "res_sum":
         if gi is None:
